@@ -8,6 +8,7 @@
   before/after snapshots.
 -/
 import YtkProofs.Merge
+import YtkProofs.Heap
 
 namespace Ytk.C04
 
@@ -131,5 +132,157 @@ theorem nonvacuous_append : mergeC .append exA exB =
     [("a", i 1), ("b", .list [i 9]),
      ("c", .list [i 1, .cont [("p", i 1)], i 3, Node.null, .cont [("q", i 2)]]), ("d", i 4), ("e", i 5)] := by
   decide
+
+/-! ## Pointer level: Merge on the heap model (YtkModel/Heap.lean)
+
+  "Merging never modifies A or B" at the level the sentence is about: a document is a root
+  address in a heap of cells, allocation appends, so "no existing object was written" is "the
+  old heap is a prefix of the new one".  `mergeContainersF o f h c1 c2` is
+  `A.Merge(B, opts)` for the containers at addresses `c1`, `c2` (`o` = list strategy, `f` = fuel). -/
+
+section heap
+open Ytk.Heap
+
+/-- Merge (either list strategy) never writes an existing cell: the old heap is a prefix of the
+    new one, cell for cell — so EVERY root of the old heap, A and B in particular, abstracts to
+    exactly the document it did before. -/
+theorem heap_merge_prefix (o : ListStrategy) (f : Nat) (h h' : Heap) (c1 c2 r : Addr)
+    (hm : mergeContainersF o f h c1 c2 = some (h', r)) :
+    h ≤ h' ∧ (∀ b, b < h.size → h'.get? b = h.get? b) ∧
+      ∀ (g : Nat) (x : Addr) (n : Node), absH g h x = some n → absH g h' x = some n :=
+  ⟨mergeContainersF_le hm, fun _ hb => Heap.get?_eq_of_le (mergeContainersF_le hm) hb,
+   fun g x n hn => absH_mono (mergeContainersF_le hm) g x n hn⟩
+
+/-- the same for OverlayDocument.Merged (a fold of Merge over the layers) -/
+theorem heap_mergeAll_prefix (o : ListStrategy) (h h' : Heap) (layers : List Addr) (r : Addr)
+    (hm : Ytk.Heap.mergeAll o h layers = some (h', r)) :
+    h ≤ h' ∧ ∀ (g : Nat) (x : Addr) (n : Node), absH g h x = some n → absH g h' x = some n := by
+  have hl : h ≤ h' := by
+    unfold Ytk.Heap.mergeAll at hm
+    exact Heap.le_trans (Heap.le_alloc h (.cont [])) (mergeAllF_le layers _ h' _ r hm)
+  exact ⟨hl, fun g x n hn => absH_mono hl g x n hn⟩
+
+/-- REFINEMENT: for roots with defined abstractions `cont a`, `cont b`, the heap-level merge
+    succeeds and its result abstracts to the value-level merge `mergeC o a b` of the
+    abstractions (both list strategies); A and B still abstract to `a` and `b`. -/
+theorem heap_merge_abs (o : ListStrategy) (f : Nat) (h : Heap) (hnil : h.NilOk) (c1 c2 : Addr)
+    (a b : AMap Node) (ha : absH f h c1 = some (.cont a)) (hb : absH f h c2 = some (.cont b)) :
+    ∃ h' r, mergeContainersF o f h c1 c2 = some (h', r) ∧
+      absH f h' r = some (.cont (mergeC o a b)) ∧
+      absH f h' c1 = some (.cont a) ∧ absH f h' c2 = some (.cont b) := by
+  obtain ⟨ka, h1⟩ := get?_cont_of_absH ha
+  obtain ⟨kb, h2⟩ := get?_cont_of_absH hb
+  obtain ⟨h', r, hm, hr⟩ := mergeNodeF_abs o f h c1 c2 _ _ hnil ha hb
+  have hl := mergeNodeF_le o f h c1 c2 h' r hm
+  refine ⟨h', r, by rw [mergeContainersF_eq h1 h2]; exact hm, ?_, absH_mono hl f c1 _ ha,
+    absH_mono hl f c2 _ hb⟩
+  rw [hr, mergeNode_cont_cont]; rfl
+
+/-- … in particular on a closed, acyclic heap for any two container cells and any fuel above
+    their ranks. -/
+theorem heap_merge_abs_closed (o : ListStrategy) (h : Heap) (hc : h.Closed) (rank : Addr → Nat)
+    (hr : h.RankedBy rank) (hnil : h.NilOk) (c1 c2 : Addr) (ka kb : AMap Addr)
+    (h1 : h.get? c1 = some (.cont ka)) (h2 : h.get? c2 = some (.cont kb))
+    (f : Nat) (hf1 : rank c1 < f) (hf2 : rank c2 < f) :
+    ∃ a b h' r, absH f h c1 = some (.cont a) ∧ absH f h c2 = some (.cont b) ∧
+      mergeContainersF o f h c1 c2 = some (h', r) ∧
+      absH f h' r = some (.cont (mergeC o a b)) ∧
+      absH f h' c1 = some (.cont a) ∧ absH f h' c2 = some (.cont b) := by
+  obtain ⟨d, rfl⟩ : ∃ d, f = d + 1 := ⟨f - 1, by omega⟩
+  obtain ⟨n1, hn1⟩ := absH_of_ranked hc hr d c1 (Nat.le_of_lt_succ hf1) (Heap.get?_lt h1)
+  obtain ⟨n2, hn2⟩ := absH_of_ranked hc hr d c2 (Nat.le_of_lt_succ hf2) (Heap.get?_lt h2)
+  have k1 := absH_kind hn1 h1
+  have k2 := absH_kind hn2 h2
+  cases n1 with
+  | leaf _ => simp [Node.isCont, Cell.isCont] at k1
+  | list _ => simp [Node.isCont, Cell.isCont] at k1
+  | cont a =>
+    cases n2 with
+    | leaf _ => simp [Node.isCont, Cell.isCont] at k2
+    | list _ => simp [Node.isCont, Cell.isCont] at k2
+    | cont b =>
+      obtain ⟨h', r, hm, e1, e2, e3⟩ := heap_merge_abs o (d + 1) h hnil c1 c2 a b hn1 hn2
+      exact ⟨a, b, h', r, hn1, hn2, hm, e1, e2, e3⟩
+
+/-- SHARING: on a closed heap the result root is a newly allocated cell, and every cell
+    reachable from it is either newly allocated, or reachable from A, or reachable from B, or
+    the shared nil leaf (what `coalesce` returns when neither side has a value) — nothing else.
+    (It does NOT say the result shares nothing with its inputs: members present on one side
+    only, list items and coalesced values ARE the input objects.) -/
+theorem heap_merge_sharing (o : ListStrategy) (f : Nat) (h h' : Heap) (hc : h.Closed)
+    (hnil : h.NilOk) (c1 c2 r : Addr) (hm : mergeContainersF o f h c1 c2 = some (h', r)) :
+    (h.size ≤ r ∧ r < h'.size) ∧
+    ∀ b, Reach h' r b →
+      (h.size ≤ b ∧ b < h'.size) ∨ Reach h c1 b ∨ Reach h c2 b ∨ b = nilAddr := by
+  obtain ⟨ka, kb, h1, h2, hm'⟩ := mergeContainersF_inv hm
+  have ctx := shareCtx_of_closed hc hnil (Heap.get?_lt h1) (Heap.get?_lt h2)
+  have hs := mergeNodeF_spine_fresh hm' h1 h2 (Or.inl ⟨rfl, rfl⟩)
+  refine ⟨⟨hs.1, hs.2.1⟩, ?_⟩
+  obtain ⟨_, hi, hg⟩ := mergeNodeF_share ctx o f h c1 c2 h' r (MInv.init h _)
+    (Or.inl (Or.inl (.refl _))) (Or.inl (Or.inr (Or.inl (.refl _)))) hm'
+  intro b hb
+  rcases Good.reach ctx hi hb hg with hS | hnew
+  · exact Or.inr hS
+  · exact Or.inl hnew
+
+/-- SPINE: whenever two containers (two lists) are merged — at the root and at every recursive
+    call, i.e. at every node of the merged spine — the result is a newly allocated container
+    (list), never one of the inputs' cells. -/
+theorem heap_merge_spine_fresh (o : ListStrategy) (f : Nat) (h h' : Heap) (n v r : Addr)
+    (cn cv : Cell) (hm : mergeNodeF o f h n v = some (h', r))
+    (hn : h.get? n = some cn) (hv : h.get? v = some cv)
+    (hk : (cn.isCont = true ∧ cv.isCont = true) ∨ (cn.isList = true ∧ cv.isList = true)) :
+    h.size ≤ r ∧ r < h'.size ∧
+      ∃ c, h'.get? r = some c ∧ c.isCont = cn.isCont ∧ c.isList = cn.isList :=
+  mergeNodeF_spine_fresh hm hn hv hk
+
+/-- … and writes to those new cells (and allocations) afterwards leave every root of the old
+    heap — A and B — unchanged. -/
+theorem heap_merge_result_writes (o : ListStrategy) (f : Nat) (h h1 h2 : Heap) (c1 c2 r : Addr)
+    (hm : mergeContainersF o f h c1 c2 = some (h1, r))
+    (hw : Writes (fun _ b => h.size ≤ b) h1 h2) :
+    h ≤ h2 ∧ ∀ (g : Nat) (x : Addr) (n : Node), absH g h x = some n → absH g h2 x = some n := by
+  have hl := hw.le_of_fresh (mergeContainersF_le hm)
+  exact ⟨hl, fun g x n hn => absH_mono hl g x n hn⟩
+
+/-! ### Non-vacuity on a concrete heap
+
+  0 nilLeaf · 1 leaf 1 · 2 leaf nil (not the shared one) · 3 [#1, nilLeaf] · 4 {x: #1} ·
+  5 A = {c: #4, l: #3, n: nilLeaf, p: #1} · 6 leaf 2 · 7 [#2, #6, #6] · 8 {y: #6} ·
+  9 B = {c: #8, l: #7, n: #2, q: #6} -/
+def exMHeap : Heap := ⟨[.leaf Scalar.null, .leaf ⟨"int", "1"⟩, .leaf Scalar.null, .list [1, 0],
+  .cont [("x", 1)], .cont [("c", 4), ("l", 3), ("n", 0), ("p", 1)], .leaf ⟨"int", "2"⟩,
+  .list [2, 6, 6], .cont [("y", 6)], .cont [("c", 8), ("l", 7), ("n", 2), ("q", 6)]]⟩
+
+def exMRank : Addr → Nat | 5 => 2 | 9 => 2 | 3 => 1 | 4 => 1 | 7 => 1 | 8 => 1 | _ => 0
+
+theorem nonvacuous_heap_wf : exMHeap.Closed ∧ exMHeap.RankedBy exMRank ∧ exMHeap.NilOk :=
+  ⟨closed_of_all (by decide), rankedBy_of_all (by decide), rfl⟩
+
+/-- meld: three new cells (merged `c`, melded `l`, the root), the old ten cells untouched, the
+    result abstracts to the value-level merge of the abstractions -/
+theorem nonvacuous_heap_merge_meld :
+    (mergeContainers .meld exMHeap 5 9).map (fun p => (p.1.size, p.2)) = some (13, 12) ∧
+    (mergeContainers .meld exMHeap 5 9).map (fun p => p.1.cells.take 10) = some exMHeap.cells ∧
+    (mergeContainers .meld exMHeap 5 9).map (fun p => p.1.cells.drop 10) =
+      some [.cont [("x", 1), ("y", 6)], .list [1, 6, 6],
+            .cont [("c", 10), ("l", 11), ("n", 0), ("p", 1), ("q", 6)]] ∧
+    ((mergeContainers .meld exMHeap 5 9).bind fun p => abs p.1 p.2) =
+      (match abs exMHeap 5, abs exMHeap 9 with
+       | some (.cont a), some (.cont b) => some (.cont (mergeC .meld a b))
+       | _, _ => none) := by
+  decide
+
+theorem nonvacuous_heap_merge_append :
+    (mergeContainers .append exMHeap 5 9).map (fun p => p.1.cells.drop 10) =
+      some [.cont [("x", 1), ("y", 6)], .list [1, 0, 2, 6, 6],
+            .cont [("c", 10), ("l", 11), ("n", 0), ("p", 1), ("q", 6)]] ∧
+    ((mergeContainers .append exMHeap 5 9).bind fun p => abs p.1 p.2) =
+      (match abs exMHeap 5, abs exMHeap 9 with
+       | some (.cont a), some (.cont b) => some (.cont (mergeC .append a b))
+       | _, _ => none) := by
+  decide
+
+end heap
 
 end Ytk.C04
